@@ -1247,11 +1247,15 @@ def c07_check(ctx, conv, val, node, path=()):
             if own[0] != 'ok' or not _same_tree(ctx, own[1], node):
                 return f'{where}: wrapper did not pass the inner type\'s report through'
             return c07_check(ctx, inner, val, node, path)
+        # the wrapper's own leaf (condition failed / constructor raised / not a member): it records the offending value
+        if hasattr(node, 'actual') and not isinstance(node, ProductErrorNode) and snapshot(node.actual) != snapshot(val) and node.actual is not val:
+            return f'{where}: leaf records {node.actual!r}, not the offending value {val!r}'
         return None
     if not isinstance(node, ProductErrorNode):
-        # leaves record the offending sub-value itself
-        if isinstance(node, WrongTypeError) and isinstance(conv, (TupleConverter, SequenceConverter, StructConverter, DictConverter, PaneConverter)) \
-                and snapshot(node.actual) != snapshot(val) and node.actual is not val:
+        # leaves record the offending sub-value itself (a compiled pattern is recorded by its text, an unknown tag by the tag)
+        from pane.converters import PatternConverter, TaggedUnionConverter, UnionConverter
+        if hasattr(node, 'actual') and not isinstance(conv, (PatternConverter, TaggedUnionConverter, UnionConverter)) \
+                and not hasattr(node, 'children') and snapshot(node.actual) != snapshot(val) and node.actual is not val:
             return f'{where}: leaf records {node.actual!r}, not the offending value {val!r}'
         return None
     if isinstance(conv, (TupleConverter, SequenceConverter)):
@@ -1392,7 +1396,40 @@ def oracle_c08(ctx, scen, T, conv, val, out):
         return 'rendering is not deterministic'
     if canon(enc_tree(ctx, c[1])) != before:
         return 'rendering the error tree changed the tree (it no longer mirrors the type)'
-    return c08_mentions(c[1], a)
+    return c08_mentions(c[1], a) or c08_order(c[1], a)
+
+
+def c08_order(node, text, pos=0, sum_depth=0):
+    """'in nesting order': along every root-to-leaf path the path components and then the leaf's expectation occur in the
+    text in that order; and the offending value of a leaf is shown (unions nested more than two deep: known finding D13)"""
+    from pane.errors import SumErrorNode, ProductErrorNode, WrongTypeError, ConditionFailedError, WrongLenError
+    if isinstance(node, (WrongTypeError, ConditionFailedError, WrongLenError)):
+        i = text.find(node.expected, pos)
+        if i < 0:
+            return f'leaf expectation {node.expected!r} does not come after its path in the message'
+        if sum_depth < 2:
+            try:
+                shown = f'`{node.actual}`'
+            except BaseException:  # noqa
+                return None
+            if shown not in text:
+                return f'the offending value {shown} is not shown'
+        return None
+    if isinstance(node, ProductErrorNode):
+        for k, ch in node.children.items():
+            i = text.find(str(k), pos)
+            if i < 0:
+                return f'path component {k!r} does not come after its parent in the message'
+            r = c08_order(ch, text, i, sum_depth)
+            if r:
+                return r
+        return None
+    if isinstance(node, SumErrorNode):
+        for ch in node.children:
+            r = c08_order(ch, text, pos, sum_depth + 1)
+            if r:
+                return r
+    return None
 
 
 def c08_mentions(node, text, sum_depth=0):
